@@ -315,6 +315,15 @@ def validate_trace(trace_tla, cfg, ndjson, extra_env=None, timeout=1800, dfs=Tru
     return tlc(trace_tla, cfg, workers=1, env=env, timeout=timeout, dfs=dfs, heap=heap, deadlock=False)
 
 
+def parse_verif(out):
+    """<< "VERIF", explained, total, {<<site, mo>>...} >> printed by a trace spec's postcondition"""
+    m = re.search(r'<<\s*"VERIF",\s*(\d+),\s*(\d+),\s*(.*?)>>\s*\n(?:Model checking|Error|The |\d+ states)', out, re.S)
+    if not m:
+        return None
+    pairs = re.findall(r'<<"(\w+)",\s*"(\w+)">>', m.group(3))
+    return int(m.group(1)), int(m.group(2)), pairs
+
+
 # ----------------------------------------------------------------------------- verdicts / evidence
 class Verdict:
     def __init__(self, pid, tier, seed):
